@@ -116,6 +116,9 @@ func devsFor(n, nops int, thorough bool) []dev {
 	if n == 1 {
 		for i := 0; i <= nops; i++ {
 			out = append(out, dev{"snap", i, 0}, dev{"restartL", i, 0}, dev{"killL", i, 0})
+			if i > 0 {
+				out = append(out, dev{"pkillL", i, 0})
+			}
 		}
 		return out
 	}
@@ -123,6 +126,11 @@ func devsFor(n, nops int, thorough bool) []dev {
 		out = append(out, dev{"snap", i, 0}, dev{"restartF", i, 0}, dev{"restartL", i, 0}, dev{"killF", i, 0})
 		if i < nops {
 			out = append(out, dev{"isoL", i, 0})
+		}
+		if i > 0 {
+			// the same after a pause: log entries are replayed later than
+			// they were committed (but before any snapshot is due)
+			out = append(out, dev{"pkillF", i, 0}, dev{"pkillL", i, 0})
 		}
 		if thorough {
 			out = append(out, dev{"killL", i, 0})
@@ -166,12 +174,15 @@ func enumerate() []history {
 				base := []op{{"pin", v, 0, at}}
 				hs = append(hs, history{N: n, Ops: base})
 				for _, d := range devsFor(n, 1, th) {
-					if d.Kind == "lag" || d.Kind == "lagsnap" {
+					if d.Kind == "lag" || d.Kind == "lagsnap" || d.Kind == "plag" {
 						continue
 					}
 					hs = append(hs, history{N: n, Ops: base, Devs: []dev{d}})
 				}
 				hs = append(hs, history{N: n, Ops: []op{{"pin", v, 0, at}, {"unpin", 0, 0, "L"}}})
+				if n == 3 {
+					hs = append(hs, history{N: n, Ops: base, Devs: []dev{{"plag", 0, 1}}}, history{N: n, Ops: base, Devs: []dev{{"lag", 0, 1}}})
+				}
 			}
 		}
 	}
@@ -218,15 +229,15 @@ func enumerate() []history {
 // overlap: two lag windows may not overlap (one follower is lagged at a time)
 // and nothing else happens to F while it is isolated.
 func overlap(a, b dev) bool {
-	isLag := func(d dev) bool { return d.Kind == "lag" || d.Kind == "lagsnap" }
+	isLag := func(d dev) bool { return d.Kind == "lag" || d.Kind == "lagsnap" || d.Kind == "plag" }
 	in := func(d dev, i int) bool { return i >= d.I && i <= d.J }
 	if isLag(a) && isLag(b) {
 		return !(a.J < b.I || b.J < a.I)
 	}
-	if isLag(a) && (b.Kind == "restartF" || b.Kind == "killF") {
+	if isLag(a) && (b.Kind == "restartF" || b.Kind == "killF" || b.Kind == "pkillF") {
 		return in(a, b.I)
 	}
-	if isLag(b) && (a.Kind == "restartF" || a.Kind == "killF") {
+	if isLag(b) && (a.Kind == "restartF" || a.Kind == "killF" || a.Kind == "pkillF") {
 		return in(b, a.I)
 	}
 	return false
@@ -574,10 +585,14 @@ func run(t *testing.T, h history) (outcome string, viol []finding, states map[st
 		for i := 0; i <= len(h.Ops) && !stop; i++ {
 			for _, d := range h.Devs {
 				switch {
-				case (d.Kind == "lag" || d.Kind == "lagsnap") && d.I == i:
+				case (d.Kind == "lag" || d.Kind == "lagsnap" || d.Kind == "plag") && d.I == i:
 					lagged = w.follower()
 					w.isolate(lagged, true)
-				case (d.Kind == "lag" || d.Kind == "lagsnap") && d.J == i && lagged != nil:
+				case (d.Kind == "lag" || d.Kind == "lagsnap" || d.Kind == "plag") && d.J == i && lagged != nil:
+					if d.Kind == "plag" {
+						time.Sleep(6 * time.Second)
+						synctest.Wait()
+					}
 					if d.Kind == "lagsnap" {
 						time.Sleep(31 * time.Second) // every peer takes a snapshot and truncates its log
 						synctest.Wait()
@@ -600,6 +615,14 @@ func run(t *testing.T, h history) (outcome string, viol []finding, states map[st
 					stop = !w.restart(w.follower(), false)
 				case d.Kind == "restartL" && d.I == i:
 					stop = !w.restart(w.leader(), false)
+				case d.Kind == "pkillF" && d.I == i:
+					time.Sleep(6 * time.Second)
+					synctest.Wait()
+					stop = !w.restart(w.follower(), true)
+				case d.Kind == "pkillL" && d.I == i:
+					time.Sleep(6 * time.Second)
+					synctest.Wait()
+					stop = !w.restart(w.leader(), true)
 				case d.Kind == "killF" && d.I == i:
 					stop = !w.restart(w.follower(), true)
 				case d.Kind == "killL" && d.I == i:
